@@ -1,7 +1,10 @@
 (* C08 — the model (ACL/Model.v) computes the documented rule (ACL/Spec.v).
    Part 1: MergePolicies.  Part 2: loadRules and the trees.  Part 3: the traversals and every
    Authorizer method.  Part 4: the theorems (semantics, order independence). *)
-From Verif Require Import Base.Prelude ACL.Model ACL.Spec ACL.Assoc.
+From Verif Require Import Base.Prelude.
+From Verif Require Import ACL.Model.
+From Verif Require Import ACL.Spec.
+From Verif Require Import ACL.Assoc.
 From Coq Require Import Permutation.
 
 (* ================================================================ Part 1: precedence, merge *)
@@ -24,15 +27,14 @@ Proof. destruct a; reflexivity. Qed.
 
 (* the strongest level: it occurs in the list and nothing in the list outranks it *)
 Lemma strongest_fold_spec ls : forall o,
-  (forall m, o = Some m -> True) ->
   match fold_left sstep ls o with
   | None => o = None /\ ls = []
   | Some m => (o = Some m \/ In m ls) /\ (forall l, o = Some l \/ In l ls -> rank l <= rank m)
   end.
 Proof.
-  induction ls as [|x ls IH]; intros o _; cbn [fold_left].
+  induction ls as [|x ls IH]; intros o; cbn [fold_left].
   - destruct o as [m|]; [|auto]. split; [auto|]. intros l [[= ->]|[]]. lia.
-  - specialize (IH (sstep o x) (fun _ _ => I)).
+  - specialize (IH (sstep o x)).
     destruct (fold_left sstep ls (sstep o x)) as [m|] eqn:E.
     + destruct IH as [Hin Hmax]. split.
       * destruct Hin as [Hs|Hin]; [|right; right; exact Hin].
@@ -57,7 +59,7 @@ Lemma strongest_spec ls :
   end.
 Proof.
   change (strongest ls) with (fold_left sstep ls None).
-  assert (H := strongest_fold_spec ls None (fun _ _ => I)).
+  assert (H := strongest_fold_spec ls None).
   destruct (fold_left sstep ls None) as [m|].
   - destruct H as [[H|H] Hm]; [discriminate|]. split; [exact H|]. intros l Hl. apply Hm; auto.
   - destruct H as [_ H]. exact H.
@@ -812,7 +814,7 @@ Section Merged.
       destruct (R _ Hin) as [Rk _]. cbn [entry_rule r_kind r_prefix r_name r_pol] in Rk. rewrite Rk.
       cbn [option_map] in Hp. destruct (eff rs k pf n) as [l|]; [|discriminate]. injection Hp as ->. reflexivity.
     - destruct (N k pf n) as [Nk _]; [rewrite rules'_keys, L; auto|]. rewrite Nk.
-      cbn [option_map] in Hp. destruct (eff rs k pf n); [discriminate|]. reflexivity.
+      cbn [option_map] in Hp. destruct (eff rs k pf n); [discriminate|]. destruct k; reflexivity.
   Qed.
 
   Lemma auth_islot pf n : islot a pf n = option_map acc (eff_int rs pf n).
@@ -862,3 +864,414 @@ Section Merged.
     rewrite E5, load_scalar_pstr_of in L5. repeat split; congruence.
   Qed.
 End Merged.
+
+Lemma strongest_nil_none {A} (f : A -> list level) l : strongest (flat_map f l) <> None -> l <> [].
+Proof. intros H ->. apply H. reflexivity. Qed.
+
+Lemma covers_eff rs k : covers (names_of rs k) (eff rs k).
+Proof.
+  intros pf n H. unfold eff in H. apply strongest_nil_none in H.
+  destruct (matching rs k pf n) as [|r l] eqn:E; [contradiction|].
+  assert (Hin : In r (matching rs k pf n)) by (rewrite E; left; reflexivity).
+  apply filter_In in Hin as [Hin Hk]. apply rkey_eqb_eq in Hk. unfold rule_key in Hk. injection Hk as Hk _ Hn.
+  unfold names_of. apply in_map_iff. exists r. split; [exact Hn|]. apply filter_In. split; [exact Hin|].
+  apply rkind_eqb_eq, Hk.
+Qed.
+
+Lemma covers_eff_int rs : covers (names_of rs KService) (eff_int rs).
+Proof.
+  intros pf n H. apply (covers_eff rs KService pf n). intros E. apply H. unfold eff_int. rewrite E. reflexivity.
+Qed.
+
+Lemma scalar_decide_spec o need : scalar_decide (option_map acc o) need = dec_of o need.
+Proof. destruct o; cbn; [apply enforce_grants|reflexivity]. Qed.
+
+Lemma lookup_decide_nil n need : lookup_decide [] n need = Default.
+Proof.
+  rewrite (lookup_decide_spec [] no_view n need) by (intros pf x; reflexivity).
+  unfold applicable, longest_prefix, no_view. generalize (prefixes n). intros L.
+  induction L as [|x L IH]; [reflexivity|exact IH].
+Qed.
+
+(* The authorizer built from a policy list decides every request as the documented rule does;
+   this holds for whatever order Go's map iteration hands the merged rules to loadRules. *)
+Theorem policy_authorizer_spec ps p' a :
+  forallb canonical ps = true ->
+  p_acl p' = p_acl (merge_policies ps) -> p_keyring p' = p_keyring (merge_policies ps) ->
+  p_operator p' = p_operator (merge_policies ps) -> p_mesh p' = p_mesh (merge_policies ps) ->
+  p_peering p' = p_peering (merge_policies ps) ->
+  Permutation (p_rules p') (p_rules (merge_policies ps)) ->
+  load_rules p' = Some a ->
+  forall m, policy_decide a m = spec_decide ps m.
+Proof.
+  intros Hc H1 H2 H3 H4 H5 HP HL m.
+  assert (Rk : forall k, repr (tree_of a k) (eff (all_rules ps) k))
+    by (intros k pf n; apply (auth_kslot ps Hc p' HP a HL)).
+  assert (Ri : repr (a_intention a) (eff_int (all_rules ps)))
+    by (intros pf n; apply (auth_islot ps Hc p' HP a HL)).
+  destruct (auth_wf ps p' HP a HL) as (Wk & Wi & Wt).
+  destruct (auth_scalars ps Hc p' H1 H2 H3 H4 H5 a HL) as (S1 & S2 & S3 & S4 & S5).
+  assert (Ck := covers_eff (all_rules ps)). assert (Ci := covers_eff_int (all_rules ps)).
+  assert (Look : forall k n need, lookup_decide (tree_of a k) n need = dec_of (applicable (eff (all_rules ps) k) n) need)
+    by (intros; apply lookup_decide_spec, Rk).
+  assert (Any : forall k need, any_allowed (tree_of a k) need = spec_any (eff (all_rules ps) k) (names_of (all_rules ps) k) need)
+    by (intros; apply any_allowed_spec; auto).
+  assert (All : forall k need, all_allowed (tree_of a k) need = spec_all (eff (all_rules ps) k) (names_of (all_rules ps) k) need)
+    by (intros; apply all_allowed_spec; auto).
+  destruct m; cbn [policy_decide spec_decide];
+    rewrite ?S1, ?S2, ?S3, ?S4, ?S5, ?Wt, ?scalar_decide_spec;
+    try reflexivity;
+    try (apply (Look KAgent)); try (apply (Look KKey)); try (apply (Look KNode)); try (apply (Look KService));
+    try (apply (Look KSession)); try (apply (Look KEvent)); try (apply (Look KQuery)).
+  - (* IntentionRead *)
+    destruct (String.eqb n star); [apply any_allowed_spec; auto|apply lookup_decide_spec, Ri].
+  - (* IntentionWrite *)
+    destruct (String.eqb n star); [apply all_allowed_spec; auto|apply lookup_decide_spec, Ri].
+  - (* KeyWrite *)
+    change (a_key a) with (tree_of a KKey). rewrite (get_policy_spec _ _ n (Rk KKey)).
+    destruct (applicable (eff (all_rules ps) KKey) n) as [l|]; cbn [option_map dec_of]; [|reflexivity].
+    rewrite enforce_grants. destruct (grants l AWrite); reflexivity.
+  - (* KeyWritePrefix *) apply (key_write_prefix_spec (tree_of a KKey)); auto.
+  - (* MeshRead *) destruct (scalar p_mesh ps); cbn [option_map dec_of]; [apply enforce_grants|reflexivity].
+  - (* MeshWrite *) destruct (scalar p_mesh ps); cbn [option_map dec_of]; [apply enforce_grants|reflexivity].
+  - (* PeeringRead *) destruct (scalar p_peering ps); cbn [option_map dec_of]; [apply enforce_grants|reflexivity].
+  - (* PeeringWrite *) destruct (scalar p_peering ps); cbn [option_map dec_of]; [apply enforce_grants|reflexivity].
+  - (* NodeRead *)
+    destruct peer; [|apply (Look KNode)].
+    change (a_service a) with (tree_of a KService). change (a_node a) with (tree_of a KNode). rewrite Any, All.
+    destruct (spec_any _ _ AWrite); reflexivity.
+  - (* NodeReadAll *) apply (All KNode).
+  - (* ServiceRead *)
+    destruct peer; [|apply (Look KService)].
+    change (a_service a) with (tree_of a KService). rewrite Any, All.
+    destruct (spec_any _ _ AWrite); reflexivity.
+  - (* ServiceReadAll *) apply (All KService).
+  - (* ServiceReadPrefix *) apply (service_read_prefix_spec (tree_of a KService)); auto.
+  - (* ServiceWriteAny *) apply (Any KService).
+  - (* TrafficPermissionsRead *) destruct (String.eqb n star); [reflexivity|apply lookup_decide_nil].
+  - (* TrafficPermissionsWrite *) destruct (String.eqb n star); [reflexivity|apply lookup_decide_nil].
+Qed.
+
+(* ---- the authorizer exists for every lowercase policy list ---- *)
+
+Lemma load_rules_some ps p' :
+  forallb canonical ps = true ->
+  p_acl p' = p_acl (merge_policies ps) -> p_keyring p' = p_keyring (merge_policies ps) ->
+  p_operator p' = p_operator (merge_policies ps) -> p_mesh p' = p_mesh (merge_policies ps) ->
+  p_peering p' = p_peering (merge_policies ps) ->
+  Permutation (p_rules p') (p_rules (merge_policies ps)) ->
+  exists a, load_rules p' = Some a.
+Proof.
+  intros Hc H1 H2 H3 H4 H5 HP. unfold load_rules.
+  destruct (load_fold_some _ (rules'_canonical ps Hc p' HP) authorizer_empty) as [a1 ->].
+  destruct (merged_scalars ps Hc p' H1 H2 H3 H4 H5) as (-> & -> & -> & -> & ->).
+  rewrite !load_scalar_pstr_of. eexists; reflexivity.
+Qed.
+
+Lemma new_policy_authorizer_some ps :
+  forallb canonical ps = true -> exists a, new_policy_authorizer ps = Some a.
+Proof. intros Hc. apply (load_rules_some ps (merge_policies ps)); auto. Qed.
+
+Lemma static_decide_spec s m : static_decide s m = spec_default s m.
+Proof. destruct m; cbn; unfold bool_decision; reflexivity. Qed.
+
+Lemma chain_decide_spec a s m ps :
+  policy_decide a m = spec_decide ps m -> chain_decide a s m = spec_chain ps s m.
+Proof.
+  intros E. unfold chain_decide, spec_chain. cbn [execute_chain]. rewrite E, static_decide_spec.
+  destruct (spec_decide ps m); try reflexivity.
+  destruct m; cbn [spec_default]; repeat match goal with |- context [if ?b then _ else _] => destruct b end; reflexivity.
+Qed.
+
+(* ================================================================ Part 5: order independence *)
+
+Lemma Permutation_filter {A} (f : A -> bool) l l' : Permutation l l' -> Permutation (filter f l) (filter f l').
+Proof.
+  induction 1 as [|x l l' _ IH|x y l|l l' l'' _ IH1 _ IH2]; cbn [filter].
+  - constructor.
+  - destruct (f x); [constructor|]; exact IH.
+  - destruct (f x), (f y); try apply Permutation_refl. apply perm_swap.
+  - eapply Permutation_trans; eassumption.
+Qed.
+
+Lemma existsb_perm {A} (f : A -> bool) l l' : Permutation l l' -> existsb f l = existsb f l'.
+Proof.
+  intros P. apply bool_eq_iff. rewrite !existsb_exists.
+  split; intros (x & Hin & Hx); exists x; (split; [|exact Hx]);
+    [eapply Permutation_in; eassumption|eapply Permutation_in; [apply Permutation_sym|]; eassumption].
+Qed.
+
+Section Perm.
+  Variables ps ps' : list policy.
+  Hypothesis HP : Permutation ps ps'.
+
+  Lemma rules_perm : Permutation (all_rules ps) (all_rules ps').
+  Proof. apply Permutation_flat_map, HP. Qed.
+
+  Lemma eff_perm k pf n : eff (all_rules ps) k pf n = eff (all_rules ps') k pf n.
+  Proof. apply strongest_perm, Permutation_flat_map, Permutation_filter, rules_perm. Qed.
+
+  Lemma eff_int_perm pf n : eff_int (all_rules ps) pf n = eff_int (all_rules ps') pf n.
+  Proof.
+    unfold eff_int. rewrite eff_perm.
+    assert (P : Permutation (flat_map (fun r => olist (doc_level (r_int r))) (matching (all_rules ps) KService pf n))
+                            (flat_map (fun r => olist (doc_level (r_int r))) (matching (all_rules ps') KService pf n)))
+      by apply Permutation_flat_map, Permutation_filter, rules_perm.
+    rewrite (strongest_perm _ _ P). reflexivity.
+  Qed.
+
+  Lemma names_perm k : Permutation (names_of (all_rules ps) k) (names_of (all_rules ps') k).
+  Proof. apply Permutation_map, Permutation_filter, rules_perm. Qed.
+
+  Lemma scalar_perm f : scalar f ps = scalar f ps'.
+  Proof. apply strongest_perm, Permutation_flat_map, HP. Qed.
+End Perm.
+
+Lemma longest_prefix_ext v v' n : (forall pf x, v pf x = v' pf x) -> longest_prefix v n = longest_prefix v' n.
+Proof.
+  intros E. unfold longest_prefix. generalize (@None level). induction (prefixes n) as [|x L IH]; intros o; [reflexivity|].
+  cbn [fold_left]. rewrite E. apply IH.
+Qed.
+
+Lemma applicable_ext v v' n : (forall pf x, v pf x = v' pf x) -> applicable v n = applicable v' n.
+Proof. intros E. unfold applicable. rewrite E, (longest_prefix_ext v v' n E). reflexivity. Qed.
+
+Lemma rules_at_ext v v' S S' : (forall pf x, v pf x = v' pf x) -> Permutation S S' ->
+  Permutation (rules_at v S) (rules_at v' S').
+Proof.
+  intros E P. unfold rules_at.
+  rewrite (flat_map_ext _ (fun n => olist (v' false n) ++ olist (v' true n))) by (intros x; rewrite !E; reflexivity).
+  apply Permutation_flat_map, P.
+Qed.
+
+Lemma spec_any_ext v v' S S' need : (forall pf x, v pf x = v' pf x) -> Permutation S S' ->
+  spec_any v S need = spec_any v' S' need.
+Proof. intros E P. unfold spec_any. rewrite (existsb_perm _ _ _ (rules_at_ext v v' S S' E P)), E. reflexivity. Qed.
+
+Lemma spec_all_ext v v' S S' need : (forall pf x, v pf x = v' pf x) -> Permutation S S' ->
+  spec_all v S need = spec_all v' S' need.
+Proof. intros E P. unfold spec_all. rewrite (existsb_perm _ _ _ (rules_at_ext v v' S S' E P)), E. reflexivity. Qed.
+
+Lemma spec_subtree_ext good v v' S S' p : (forall pf x, v pf x = v' pf x) -> Permutation S S' ->
+  spec_subtree good v S p = spec_subtree good v' S' p.
+Proof.
+  intros E P. unfold spec_subtree. rewrite (longest_prefix_ext v v' p E).
+  rewrite (existsb_perm _ _ _ (rules_at_ext v v' _ _ E (Permutation_filter (String.prefix p) _ _ P))). reflexivity.
+Qed.
+
+(* the documented rule does not look at the order of the policies (nor of the rules inside) *)
+Theorem spec_decide_perm ps ps' m : Permutation ps ps' -> spec_decide ps m = spec_decide ps' m.
+Proof.
+  intros HP.
+  assert (Ek := eff_perm ps ps' HP). assert (Ei := eff_int_perm ps ps' HP).
+  assert (En := names_perm ps ps' HP). assert (Es := scalar_perm ps ps' HP).
+  assert (A : forall k n, applicable (eff (all_rules ps) k) n = applicable (eff (all_rules ps') k) n)
+    by (intros; apply applicable_ext; intros; apply Ek).
+  assert (Ai : forall n, applicable (eff_int (all_rules ps)) n = applicable (eff_int (all_rules ps')) n)
+    by (intros; apply applicable_ext; intros; apply Ei).
+  assert (Any : forall k need, spec_any (eff (all_rules ps) k) (names_of (all_rules ps) k) need
+                             = spec_any (eff (all_rules ps') k) (names_of (all_rules ps') k) need)
+    by (intros; apply spec_any_ext; [intros; apply Ek|apply En]).
+  assert (All : forall k need, spec_all (eff (all_rules ps) k) (names_of (all_rules ps) k) need
+                             = spec_all (eff (all_rules ps') k) (names_of (all_rules ps') k) need)
+    by (intros; apply spec_all_ext; [intros; apply Ek|apply En]).
+  assert (Anyi : forall need, spec_any (eff_int (all_rules ps)) (names_of (all_rules ps) KService) need
+                            = spec_any (eff_int (all_rules ps')) (names_of (all_rules ps') KService) need)
+    by (intros; apply spec_any_ext; [intros; apply Ei|apply En]).
+  assert (Alli : forall need, spec_all (eff_int (all_rules ps)) (names_of (all_rules ps) KService) need
+                            = spec_all (eff_int (all_rules ps')) (names_of (all_rules ps') KService) need)
+    by (intros; apply spec_all_ext; [intros; apply Ei|apply En]).
+  assert (Sub : forall good k p, spec_subtree good (eff (all_rules ps) k) (names_of (all_rules ps) k) p
+                               = spec_subtree good (eff (all_rules ps') k) (names_of (all_rules ps') k) p)
+    by (intros; apply spec_subtree_ext; [intros; apply Ek|apply En]).
+  destruct m; cbn [spec_decide]; rewrite ?A, ?Ai, ?Any, ?All, ?Anyi, ?Alli, ?Sub, ?Es; reflexivity.
+Qed.
+
+(* ---- "longest": the prefix rule chosen is the one with the longest name ---- *)
+
+Lemma longest_prefix_fold v L : forall cur,
+  match fold_left (lp_step v) L cur with
+  | Some l => (cur = Some l /\ forall x, In x L -> v true x = None)
+              \/ exists l1 p l2, L = l1 ++ p :: l2 /\ v true p = Some l /\ forall x, In x l2 -> v true x = None
+  | None => cur = None /\ forall x, In x L -> v true x = None
+  end.
+Proof.
+  induction L as [|x L IH]; intros cur; cbn [fold_left].
+  - destruct cur; [left|]; split; auto; intros ? [].
+  - specialize (IH (lp_step v cur x)). destruct (fold_left (lp_step v) L (lp_step v cur x)) as [l|].
+    + destruct IH as [[Hc Hn]|(l1 & p & l2 & -> & Hp & Hn)].
+      * unfold lp_step in Hc. destruct (v true x) as [lx|] eqn:Ex.
+        -- right. exists [], x, L. injection Hc as ->. auto.
+        -- left. split; [exact Hc|]. intros y [<-|Hy]; auto.
+      * right. exists (x :: l1), p, l2. auto.
+    + destruct IH as [Hc Hn]. unfold lp_step in Hc. destruct (v true x) eqn:Ex; [discriminate|].
+      split; [exact Hc|]. intros y [<-|Hy]; auto.
+Qed.
+
+Theorem longest_prefix_spec v n :
+  match longest_prefix v n with
+  | Some l => exists p, String.prefix p n = true /\ v true p = Some l
+                /\ forall q, String.prefix q n = true -> v true q <> None -> String.length q <= String.length p
+  | None => forall q, String.prefix q n = true -> v true q = None
+  end.
+Proof.
+  change (longest_prefix v n) with (fold_left (lp_step v) (prefixes n) None).
+  assert (H := longest_prefix_fold v (prefixes n) None).
+  destruct (fold_left (lp_step v) (prefixes n) None) as [l|].
+  - destruct H as [[H _]|(l1 & p & l2 & E & Hp & Hn)]; [discriminate|].
+    exists p. split; [apply prefixes_In; rewrite E; apply in_or_app; right; left; reflexivity|].
+    split; [exact Hp|]. intros q Hq Hv. apply prefixes_In in Hq. rewrite E in Hq.
+    apply in_app_or in Hq as [Hq|[<-|Hq]].
+    + (* q comes earlier: it is shorter *)
+      apply in_split in Hq as (m1 & m2 & ->). rewrite <- app_assoc in E. cbn [app] in E.
+      apply Nat.lt_le_incl. eapply (prefixes_lengths n m1 q (m2 ++ p :: l2) E). apply in_or_app. right; left; reflexivity.
+    + lia.
+    + exfalso. apply Hv, Hn, Hq.
+  - destruct H as [_ Hn]. intros q Hq. apply Hn, prefixes_In, Hq.
+Qed.
+
+(* ================================================================ Part 6: packaged statements *)
+
+Theorem semantics ps :
+  forallb canonical ps = true ->
+  exists a, new_policy_authorizer ps = Some a
+    /\ forall m, policy_decide a m = spec_decide ps m
+    /\ forall s, chain_decide a s m = spec_chain ps s m.
+Proof.
+  intros Hc. destruct (new_policy_authorizer_some ps Hc) as [a Ha]. exists a. split; [exact Ha|].
+  intros m.
+  assert (E : policy_decide a m = spec_decide ps m)
+    by (apply (policy_authorizer_spec ps (merge_policies ps) a); auto).
+  split; [exact E|]. intros s. apply chain_decide_spec, E.
+Qed.
+
+Theorem order_independent ps ps' a a' :
+  forallb canonical ps = true -> Permutation ps ps' ->
+  new_policy_authorizer ps = Some a -> new_policy_authorizer ps' = Some a' ->
+  forall m, policy_decide a m = policy_decide a' m /\ forall s, chain_decide a s m = chain_decide a' s m.
+Proof.
+  intros Hc HP Ha Ha' m.
+  assert (Hc' : forallb canonical ps' = true).
+  { apply forallb_forall. intros p Hp. revert p Hp. rewrite <- Forall_forall.
+    eapply Permutation_Forall; [exact HP|]. apply Forall_forall. apply forallb_forall. exact Hc. }
+  destruct (semantics ps Hc) as (b & Hb & Sb). destruct (semantics ps' Hc') as (b' & Hb' & Sb').
+  assert (b = a) by congruence. assert (b' = a') by congruence. subst b b'.
+  destruct (Sb m) as [E1 C1]. destruct (Sb' m) as [E2 C2].
+  split; [rewrite E1, E2; apply spec_decide_perm, HP|].
+  intros s. rewrite C1, C2. unfold spec_chain. rewrite (spec_decide_perm ps ps' m HP). reflexivity.
+Qed.
+
+(* Go's map iteration order in policyRulesMergeContext.fill does not matter *)
+Theorem map_order_independent ps p' a a' :
+  forallb canonical ps = true ->
+  p_acl p' = p_acl (merge_policies ps) -> p_keyring p' = p_keyring (merge_policies ps) ->
+  p_operator p' = p_operator (merge_policies ps) -> p_mesh p' = p_mesh (merge_policies ps) ->
+  p_peering p' = p_peering (merge_policies ps) ->
+  Permutation (p_rules p') (p_rules (merge_policies ps)) ->
+  new_policy_authorizer ps = Some a -> load_rules p' = Some a' ->
+  forall m, policy_decide a' m = policy_decide a m.
+Proof.
+  intros Hc H1 H2 H3 H4 H5 HP Ha Ha' m.
+  rewrite (policy_authorizer_spec ps p' a' Hc H1 H2 H3 H4 H5 HP Ha' m).
+  symmetry. apply (policy_authorizer_spec ps (merge_policies ps) a); auto.
+Qed.
+
+(* ---- what the list-level tests of the reference mean, for ALL names ---- *)
+
+Lemma rules_at_exists v S (P : level -> bool) : covers S v ->
+  (existsb P (rules_at v S) = true <-> exists pf n l, v pf n = Some l /\ P l = true).
+Proof.
+  intros C. unfold rules_at. rewrite existsb_exists. split.
+  - intros (l & Hin & HP). apply in_flat_map in Hin as (n & _ & Hl). apply in_app_or in Hl as [Hl|Hl].
+    + exists false, n, l. destruct (v false n) as [x|]; [|destruct Hl]. destruct Hl as [->|[]]. auto.
+    + exists true, n, l. destruct (v true n) as [x|]; [|destruct Hl]. destruct Hl as [->|[]]. auto.
+  - intros (pf & n & l & Hv & HP). exists l. split; [|exact HP]. apply in_flat_map. exists n. split.
+    + apply (C pf). congruence.
+    + apply in_or_app. destruct pf; [right|left]; rewrite Hv; left; reflexivity.
+Qed.
+
+Lemma rules_below_exists v S p (P : level -> bool) : covers S v ->
+  (existsb P (rules_at v (filter (String.prefix p) S)) = true
+   <-> exists pf n l, String.prefix p n = true /\ v pf n = Some l /\ P l = true).
+Proof.
+  intros C. unfold rules_at. rewrite existsb_exists. split.
+  - intros (l & Hin & HP). apply in_flat_map in Hin as (n & Hn & Hl). apply filter_In in Hn as [_ Hpre].
+    apply in_app_or in Hl as [Hl|Hl].
+    + exists false, n, l. destruct (v false n) as [x|]; [|destruct Hl]. destruct Hl as [->|[]]. auto.
+    + exists true, n, l. destruct (v true n) as [x|]; [|destruct Hl]. destruct Hl as [->|[]]. auto.
+  - intros (pf & n & l & Hpre & Hv & HP). exists l. split; [|exact HP]. apply in_flat_map. exists n. split.
+    + apply filter_In. split; [apply (C pf); congruence|exact Hpre].
+    + apply in_or_app. destruct pf; [right|left]; rewrite Hv; left; reflexivity.
+Qed.
+
+Theorem spec_any_meaning v S need : covers S v ->
+  (spec_any v S need = Allow <-> exists pf n l, v pf n = Some l /\ grants l need = true)
+  /\ (spec_any v S need = Default <-> (forall pf n l, v pf n = Some l -> grants l need = false) /\ v true EmptyString = None).
+Proof.
+  intros C. unfold spec_any. assert (H := rules_at_exists v S (fun l => grants l need) C).
+  destruct (existsb (fun l => grants l need) (rules_at v S)) eqn:E.
+  - split; [split; [intros _; apply H; reflexivity|reflexivity]|].
+    split; [discriminate|]. intros [Hn _]. exfalso. destruct (proj1 H eq_refl) as (pf & n & l & Hv & Hg).
+    rewrite (Hn _ _ _ Hv) in Hg. discriminate.
+  - assert (Hn : forall pf n l, v pf n = Some l -> grants l need = false).
+    { intros pf n l Hv. destruct (grants l need) eqn:G; [|reflexivity].
+      assert (false = true) by (apply H; eauto). discriminate. }
+    split.
+    + split; [destruct (is_some (v true EmptyString)); discriminate|].
+      intros (pf & n & l & Hv & Hg). rewrite (Hn _ _ _ Hv) in Hg. discriminate.
+    + destruct (v true EmptyString); cbn [is_some]; split; try discriminate; auto. intros [_ [=]].
+Qed.
+
+Theorem spec_all_meaning v S need : covers S v ->
+  (spec_all v S need = Deny <-> exists pf n l, v pf n = Some l /\ grants l need = false)
+  /\ (spec_all v S need = Allow <-> (forall pf n l, v pf n = Some l -> grants l need = true) /\ v true EmptyString <> None).
+Proof.
+  intros C. unfold spec_all. assert (H := rules_at_exists v S (fun l => negb (grants l need)) C).
+  destruct (existsb (fun l => negb (grants l need)) (rules_at v S)) eqn:E.
+  - destruct (proj1 H eq_refl) as (pf & n & l & Hv & Hg). apply negb_true_iff in Hg.
+    split; [split; [eauto|reflexivity]|]. split; [discriminate|]. intros [Hn _]. rewrite (Hn _ _ _ Hv) in Hg. discriminate.
+  - assert (Hn : forall pf n l, v pf n = Some l -> grants l need = true).
+    { intros pf n l Hv. destruct (grants l need) eqn:G; [reflexivity|].
+      assert (false = true) by (apply H; exists pf, n, l; rewrite G; auto). discriminate. }
+    split.
+    + split; [destruct (is_some (v true EmptyString)); discriminate|].
+      intros (pf & n & l & Hv & Hg). rewrite (Hn _ _ _ Hv) in Hg. discriminate.
+    + destruct (v true EmptyString); cbn [is_some]; split; try discriminate; auto; try (intros [_ Hx]; congruence).
+      intros _. split; [exact Hn|discriminate].
+Qed.
+
+(* KeyWritePrefix / ServiceReadPrefix: the rule applying to the prefix itself and EVERY rule whose
+   name lies below the prefix must be good *)
+Theorem spec_subtree_meaning good v S p : covers S v ->
+  (spec_subtree good v S p = Deny <->
+     (exists l, longest_prefix v p = Some l /\ good l = false)
+     \/ (exists pf n l, String.prefix p n = true /\ v pf n = Some l /\ good l = false))
+  /\ (spec_subtree good v S p = Allow <->
+     (exists l, longest_prefix v p = Some l /\ good l = true)
+     /\ (forall pf n l, String.prefix p n = true -> v pf n = Some l -> good l = true)).
+Proof.
+  intros C. unfold spec_subtree. assert (H := rules_below_exists v S p (fun l => negb (good l)) C).
+  destruct (longest_prefix v p) as [b|]; [destruct (good b) eqn:Gb|]; cbn [negb].
+  - destruct (existsb (fun l => negb (good l)) (rules_at v (filter (String.prefix p) S))) eqn:E.
+    + destruct (proj1 H eq_refl) as (pf & n & l & Hp & Hv & Hg). apply negb_true_iff in Hg. split.
+      * split; [intros _; right; eauto 6|reflexivity].
+      * split; [discriminate|]. intros [_ Hall]. rewrite (Hall _ _ _ Hp Hv) in Hg. discriminate.
+    + assert (Hall : forall pf n l, String.prefix p n = true -> v pf n = Some l -> good l = true).
+      { intros pf n l Hp Hv. destruct (good l) eqn:G; [reflexivity|].
+        assert (false = true) by (apply H; exists pf, n, l; rewrite G; auto). discriminate. }
+      split.
+      * split; [discriminate|]. intros [(l & [= <-] & Hg)|(pf & n & l & Hp & Hv & Hg)]; [congruence|].
+        rewrite (Hall _ _ _ Hp Hv) in Hg. discriminate.
+      * split; [intros _; split; [eauto|exact Hall]|reflexivity].
+  - split.
+    + split; [intros _; left; eauto|reflexivity].
+    + split; [discriminate|]. intros [(l & [= <-] & Hg) _]. congruence.
+  - destruct (existsb (fun l => negb (good l)) (rules_at v (filter (String.prefix p) S))) eqn:E.
+    + destruct (proj1 H eq_refl) as (pf & n & l & Hp & Hv & Hg). apply negb_true_iff in Hg. split.
+      * split; [intros _; right; eauto 6|reflexivity].
+      * split; [discriminate|]. intros [(l' & [=] & _) _].
+    + split.
+      * split; [discriminate|]. intros [(l & [=] & _)|(pf & n & l & Hp & Hv & Hg)].
+        assert (false = true) by (apply H; exists pf, n, l; rewrite Hg; auto). discriminate.
+      * split; [discriminate|]. intros [(l & [=] & _) _].
+Qed.
